@@ -79,3 +79,8 @@ check("C07", "other",
       "the SMT semantics of the real compiled statements on a symbolic database); z3 decides that executing the processed tree "
       "yields the rows of direct evaluation for all leaf contents within the bound; input-tree snapshot, hook-source "
       "evaluability and trivial-relation short-cuts are path assertions.", BSV + " and sqlmodel (symbolic database)", "3/C07")
+check("C10", "other",
+      "Bounded exhaustive exploration under symx of every history (up to k actions) of execute / Processor.process / "
+      "attach_payload over six families of trees sharing a materialization node, with symbolic rows; write-once payload identity "
+      "and at-most-once evaluation counters are path assertions, cached-row equality is decided by z3.",
+      BSV + " over bounded action histories", "3/C10")
